@@ -532,10 +532,16 @@ type State struct {
 	alloc Term
 	pc    *PC
 	epoch string // "" = entry; set by a total havoc: untouched heaps are name@<epoch>
+	// after a merge of states with different epochs: the incoming states and
+	// their guards, so that a heap none of them had written (and which is
+	// therefore in no heaps map) is materialised on first use as the guarded
+	// choice of the incoming states' versions instead of being forgotten
+	mergeSrc    []*State
+	mergeGuards []Term
 }
 
 func (st *State) clone() *State {
-	n := &State{vars: make(map[types.Object]Value, len(st.vars)), heaps: make(map[string]Term, len(st.heaps)), alloc: st.alloc, pc: st.pc, epoch: st.epoch}
+	n := &State{vars: make(map[types.Object]Value, len(st.vars)), heaps: make(map[string]Term, len(st.heaps)), alloc: st.alloc, pc: st.pc, epoch: st.epoch, mergeSrc: st.mergeSrc, mergeGuards: st.mergeGuards}
 	for k, v := range st.vars {
 		n.vars[k] = v
 	}
@@ -554,6 +560,29 @@ func (vc *VC) heap(st *State, name, sort string) Term {
 	}
 	if t, ok := st.heaps[name]; ok {
 		return t
+	}
+	if st.mergeSrc != nil {
+		ts := make([]Term, len(st.mergeSrc))
+		same := true
+		for i, s := range st.mergeSrc {
+			ts[i] = vc.heap(s, name, sort)
+			if ts[i].S != ts[0].S {
+				same = false
+			}
+		}
+		r := ts[len(ts)-1]
+		if !same {
+			for i := len(ts) - 2; i >= 0; i-- {
+				r = tIte(st.mergeGuards[i], ts[i], r)
+			}
+			if len(r.S) >= 200 {
+				nv := vc.fresh(name, sort)
+				st.assume(tEq(nv, r))
+				r = nv
+			}
+		}
+		st.heaps[name] = r
+		return r
 	}
 	c := name + "@0"
 	if st.epoch != "" {
@@ -578,6 +607,7 @@ func (vc *VC) havocAll(st *State, preserved []PreservedField) {
 	}
 	st.heaps = keep
 	st.epoch = fmt.Sprintf("e%d", vc.n)
+	st.mergeSrc, st.mergeGuards = nil, nil
 	na := vc.fresh("alloc", "Int")
 	st.assume(app("Bool", "<=", st.alloc, na))
 	st.alloc = na
@@ -739,6 +769,9 @@ func (vc *VC) mergeStates(sts []*State) *State {
 			continue
 		}
 		out.heaps[n] = define(n, terms)
+	}
+	if !sameEpoch {
+		out.mergeSrc, out.mergeGuards = live, guards
 	}
 	// alloc
 	sameA := true
